@@ -113,8 +113,16 @@ def strat_history(draw, tier):
         single = n == 1 and draw(st.booleans())
         cmds = [draw(st.sampled_from([0.0, 0.0, 0.0, 0.25, 1.0, 3.0]))
                 for _ in range(n)]
+        # time the caller's callbacks take (virtual seconds spent outside
+        # the connection's own waiting)
+        slow = draw(st.integers(0, 3)) == 0
+        cb_time = [draw(st.sampled_from([0.0, 0.0, 0.0, 0.4, 1.7, 3.5]))
+                   if slow else 0.0 for _ in range(n)]
         bursts.append({"window": draw(st.integers(1, 16)), "cmds": cmds,
-                       "single": single})
+                       "single": single, "cb_time": cb_time,
+                       # a later call may name another buffer size
+                       "buffer": draw(st.sampled_from(
+                           [None, None, None, 64, 128, 512, 1000]))})
         total += n
     plan = draw(st.lists(plan_entry(), max_size=min(3 * total + 2, 120)))
     # the buffer size the machine advertises bounds the data of a reply;
@@ -136,9 +144,8 @@ def run_history(case, wrap=False):
     h = simnet.Harness()
     plan = Plan(case["plan"], case["timeout"])
     h.net.plan = plan
-    buf = case.get("buffer", 256)
-    echo = Echo({"none": 0, "short": min(5, buf), "max": buf}[
-        case.get("reply_data", "none")])
+    case_buf = case.get("buffer", 256)
+    echo = Echo(0)
     h.net.attach("spinn", 17893, echo)
 
     # unified event log
@@ -162,6 +169,10 @@ def run_history(case, wrap=False):
                                     timeout=case["timeout"])
         for b, burst in enumerate(case["bursts"]):
             ids = [b * 100000 + i for i in range(len(burst["cmds"]))]
+            buf = burst.get("buffer") or case_buf
+            echo.data_length = {"none": 0, "short": min(5, buf), "max": buf}[
+                case.get("reply_data", "none")]
+            durations = dict(zip(ids, burst.get("cb_time") or []))
             budget += len(ids) * case["n_tries"]
             h.net.select_limit = 8 * budget + len(case["plan"]) + 200 + \
                 h.net.select_calls
@@ -171,6 +182,7 @@ def run_history(case, wrap=False):
                 def cb(packet):
                     events.append(("callback", h.clock.now, cid,
                                    bytes(packet)))
+                    h.clock.now += durations.get(cid, 0.0)
                 return cb
             calls = [sc.scpcall(1, 2, 3, 5, cid, 0, 0, b"", make_cb(cid),
                                 extra)
